@@ -755,8 +755,9 @@ def gen_pool(rng):
   strides = None if rng.random() < 0.3 else tuple(rng.randint(1, 3) for _ in range(rank))
   mode = rng.choice(['VALID', 'SAME', 'PAIRS'])
   padding = mode if mode != 'PAIRS' else [(rng.randint(0, w - 1), rng.randint(0, w - 1)) for w in window]
-  # the pooling docstrings promise (batch, window dims..., features); explicit pairs are only accepted with <= 1 batch dim
-  batch = batch_shape(rng, 1 if mode == 'PAIRS' else 2)
+  batch = batch_shape(rng, 2)
+  if strides is not None and rng.random() < 0.25:
+    strides = list(strides)   # "a sequence of n integers"
   return dict(kind=kind, batch=batch, spatial=tuple(spatial), features=rng.randint(1, 3), window=tuple(window),
               strides=strides, padding=padding, count_include_pad=rng.random() < 0.5)
 
